@@ -324,8 +324,14 @@ class ModbusRtuFramer(ModbusFramer):
         Process incoming packets irrespective error condition
         """
         data = self.getRawFrame() if error else self.getFrame()
-        result = self.decoder.decode(data)
+        try:
+            result = self.decoder.decode(data)
+        except Exception:
+            # a frame the decoder cannot take must not stay in the buffer
+            self.advanceFrame()
+            raise
         if result is None:
+            self.advanceFrame()
             raise ModbusIOException("Unable to decode request")
         elif error and result.function_code < 0x80:
             raise InvalidMessageReceivedException(result)
